@@ -20,10 +20,10 @@ from .. import rowgen as G
 from .. import rowlib as R
 
 MANIFEST = dict(
-    text="Proof: Lean theorems over a hand model of RowParser.unparse_row/parse_row + CellParser (Props/C07.lean: parse∘unparse = id for the proved schema family, unbounded strings and list lengths; general statement C07_full kept visible), flow-row schema tied to the source by T1 tables; model tied to the code by differential runs over a family of dynamically created pydantic row models × all admissible target-header sets × strings over | ; \\ space newline , \" é 日 1 0 true and field-name-shaped strings, on the intermediate dict and on the parsed value; direct oracle parse_row(unparse_row(m, layout)) == m and the same through real csv/xlsx files.",
+    text="Proof (partial): Lean theorem parse_unparse_partial — parse_row(unparse_row(m, layout)) = m over a hand model of RowParser + CellParser — for every row model without header remaps whose fields are str/int/float/bool, lists of those, sub-records of those and lists of such sub-records, under EVERY admissible target-header set (each list, sub-record and list element independently spread over one column per leaf or packed into one cell), for unbounded strings, integers, list lengths and numbers of fields, with default elision/restoration; int(str(i)) = i proved; each hypothesis has a kernel-checked negative witness that is replayed on the real code. The general statement C07_full stays visible and unproved for: remapped headers (so FlowRowModel itself), sub-records nested deeper, lists of lists, untyped lists. The flow row schema and all remap dictionaries are tied to the source by T1 theorems (tables_agree_*). The model is tied to the code by differential runs over dynamically created pydantic row models (fixed + random schemas + FlowRowModel) × all target-header subsets (≤ 64, sampled beyond) × strings over | ; \\ space newline , \" é 日 1 0 true and field-name-shaped strings, on the intermediate dict and on the parsed value; direct oracle parse_row(unparse_row(m, layout)) == m on the real code and through real csv/xlsx files.",
     ref="§5 C07",
-    note="Trusts: Lean kernel (axioms audited each run), the differential harness and Driver JSON codec, pydantic v1 (field order, defaults, ==), CPython str()/int()/float() as modelled, tablib/csv/openpyxl for the file route. Known finding F-C04-d (spread untyped list of lists) excluded from the main stream and exercised separately. Templates ('{') and U+0001 are outside the representable domain.",
-    technique="Lean 4 proof (structural induction over schema/value) + model/code correspondence + direct round-trip oracle",
+    note="Trusts: Lean kernel (axioms audited each run), the differential harness and Driver JSON codec, pydantic v1 (field order, defaults, ==), CPython str()/int()/float() as modelled (float is an abstract codec carrying repr(x)), tablib/csv/openpyxl for the file route. FlowRowModel round trips are covered by tie + oracle (≈ 7 k in-domain rows per quick run), not by the theorem. Known finding F-C04-d (spread untyped list of lists) excluded from the main stream and exercised separately. Templates ('{') and U+0001 are outside the representable domain.",
+    technique="Lean 4 proof (record-level induction over fields, frame/nesting lemmas for find_entry, C08 split_join for packed cells) + model/code correspondence + direct round-trip oracle",
 )
 
 _SCHEMAS: list = []   # (description, schema JSON, meta) — filled before forking
